@@ -501,7 +501,83 @@ def _leaves(tree, path=()):
     return out
 
 
+def special_cases(acc):
+    """(a) one process with several ports wired to one store and to a
+    sub-store of it: Composite.initial_state()/default_state() keep every
+    port's values; (b) a glob nested in a glob reaches children that
+    another process declared explicitly (without default)."""
+    leaf = shapes.leaf
+    # (a)
+    for order in (('p1', 'p2', 'p3'), ('p3', 'p2', 'p1'), ('p2', 'p3', 'p1')):
+        schema_all = {'p1': {'a': leaf(11), 'b': leaf(12)},
+                      'p2': {'c': leaf(13)}, 'p3': {'d': leaf(14)}}
+        topo_all = {'p1': ('s',), 'p2': ('s',), 'p3': ('s', 'deep')}
+        init_all = {'p1': {'a': 101, 'b': 102}, 'p2': {'c': 103},
+                    'p3': {'d': 104}}
+        schema = {k: schema_all[k] for k in order}
+        topo = {k: topo_all[k] for k in order}
+        init = {k: init_all[k] for k in order}
+        case = {'special': 'overlapping-ports', 'order': order}
+        acc.case(key=('special', 'overlap', order), outcome='special')
+        proc = probes.Probe({'pid': 'proc', 'schema': schema, 'init': init,
+                             'log_states': False})
+        comp = Composite({'processes': {'proc': proc},
+                          'topology': {'proc': topo}})
+        want_i = {'s': {'a': 101, 'b': 102, 'c': 103, 'deep': {'d': 104}}}
+        want_d = {'s': {'a': 11, 'b': 12, 'c': 13, 'deep': {'d': 14}}}
+        try:
+            gi, gd = comp.initial_state(), comp.default_state()
+            st_ = probes.pure(comp.generate_store().get_value())
+        except Exception as e:  # noqa
+            acc.violate(fw.violation(
+                'C15.composite', f'raises-{type(e).__name__}',
+                f'overlapping ports: {e!r}', case))
+            continue
+        if gi != want_i or gd != want_d:
+            acc.violate(fw.violation(
+                'C15.composite', 'overlapping-ports-lose-values',
+                f'ports {order} wired to one store: initial_state() = {gi} '
+                f'(expected {want_i}), default_state() = {gd}', case))
+        elif {k: v for k, v in st_['s'].items()} != want_i['s']:
+            acc.violate(fw.violation(
+                'C15.composite', 'generate_store-loses-initial-values',
+                f'generate_store() built {st_["s"]}, expected '
+                f'{want_i["s"]}', case))
+    # (b)
+    for route in ('engine', 'store'):
+        for q_first in (False, True):
+            case = {'special': 'nested-glob', 'route': route,
+                    'q_first': q_first}
+            acc.case(key=('special', 'nested-glob', route, q_first),
+                     outcome='special')
+            P = ('P', {'agents': {'*': {'exchange': {'*': {
+                '_default': 0, '_emit': True}}}}}, {'agents': ('agents',)})
+            Q = ('Q', {'ex': {'glucose': {'_updater': 'accumulate',
+                                          '_emit': True}}},
+                 {'ex': ('agents', 'a1', 'exchange')})
+            ps = [Q, P] if q_first else [P, Q]
+            state = {'agents': {'a1': {'exchange': {'lactate': 4}},
+                                'a2': {'exchange': {}}}}
+            try:
+                tree = construct(ps, (), state, route)
+            except Exception as e:  # noqa
+                acc.violate(fw.violation(
+                    'C15.crash', f'nested-glob:{type(e).__name__}',
+                    f'construction raised {e!r}', case))
+                continue
+            got = tree['agents']['a1']['exchange']
+            if got.get('glucose') != 0 or got.get('lactate') != 4:
+                acc.violate(fw.violation(
+                    'C15.glob', 'nested-glob-child-lacks-declared-default',
+                    f'agents/a1/exchange = {got}; the nested glob declares '
+                    f'default 0 for every child (glucose is declared by '
+                    f'another process without default)', case))
+
+
 def run_job(job, acc):
+    if job[0] == 'special':
+        special_cases(acc)
+        return
     if job[0] == 'conflicts':
         conflict_cases(acc)
     elif job[0] == 'composite':
@@ -512,7 +588,7 @@ def run_job(job, acc):
 
 def jobs(ctx):
     opts = options()
-    out = [('conflicts',), ('composite',)]
+    out = [('conflicts',), ('composite',), ('special',)]
     nmax = BOUNDS[ctx.tier]['processes']
     for n in range(1, nmax + 1):
         combos = itertools.combinations_with_replacement(opts, n)
@@ -529,7 +605,9 @@ def run(ctx):
 
 def replay(case):
     acc = fw.Acc()
-    if 'conflict' in case:
+    if 'special' in case:
+        special_cases(acc)
+    elif 'conflict' in case:
         conflict_cases(acc)
     elif 'composite_state' in case:
         composite_state_cases(acc)
